@@ -57,21 +57,21 @@ theorem locationLessLoop2_eq (self_ : Loc → Loc → Bool) (a : Loc) (ls : List
 
 /-! ### the type tests -/
 
-theorem asLocationSlice_leaf {a : Loc} (h : Loc.isLeaf a = true) : Gen.asLocationSlice a = none := by
-  cases a <;> simp [Loc.isLeaf] at h <;> rfl
+theorem asLocationSlice_leaf {a : Loc} (h : Loc.isContig a = true) : Gen.asLocationSlice a = none := by
+  cases a <;> simp [Loc.isContig] at h <;> rfl
 
-theorem asContiguous_leaf {a : Loc} (h : Loc.isLeaf a = true) :
+theorem asContiguous_leaf {a : Loc} (h : Loc.isContig a = true) :
     Gen.asContiguous a = ((Loc.span? a).getD (0, 0), true) := by
-  cases a <;> simp [Loc.isLeaf] at h <;>
+  cases a <;> simp [Loc.isContig] at h <;>
     simp [Gen.asContiguous, Loc.span?, Gen.betweenSpan, Gen.pointSpan, Gen.rangedSpan, Gen.ambiguousSpan]
 
 /-! ### the body: one step of the recursion -/
 
 /-- two contiguous leaves: the `switch` at the end of `LocationLess` is `contigLess` -/
 theorem locationLessBody_leaf (self_ : Loc → Loc → Bool) {a b : Loc}
-    (ha : Loc.isLeaf a = true) (hb : Loc.isLeaf b = true) :
+    (ha : Loc.isContig a = true) (hb : Loc.isContig b = true) :
     Gen.locationLessBody self_ a b = Loc.contigLess a b := by
-  cases a <;> simp [Loc.isLeaf] at ha <;> cases b <;> simp [Loc.isLeaf] at hb <;>
+  cases a <;> simp [Loc.isContig] at ha <;> cases b <;> simp [Loc.isContig] at hb <;>
     (try cases ‹Bool›) <;> (try cases ‹Bool›) <;> (try cases ‹Bool›) <;> (try cases ‹Bool›) <;>
     simp only [Gen.locationLessBody, Gen.asLocationSlice, Gen.asContiguous, Gen.asRanged, Gen.betweenSpan,
       Gen.pointSpan, Gen.rangedSpan, Gen.ambiguousSpan, rangeCompare_eq, Loc.contigLess, Loc.span?,
@@ -99,10 +99,10 @@ theorem locationLessBody_slice_left (self_ : Loc → Loc → Bool) {a : Loc} {ls
        cases List.any ls _ <;> simp)
 
 /-- then the parts of `b`: `a` (a contiguous leaf by now) is less than EVERY part -/
-theorem locationLessBody_slice_right (self_ : Loc → Loc → Bool) {a : Loc} (ha : Loc.isLeaf a = true)
+theorem locationLessBody_slice_right (self_ : Loc → Loc → Bool) {a : Loc} (ha : Loc.isContig a = true)
     {b : Loc} {ls : List Loc} (hb : b = .joined ls ∨ b = .ordered ls) :
     Gen.locationLessBody self_ a b = ls.all (fun l => self_ a l) := by
-  rcases hb with rfl | rfl <;> cases a <;> simp [Loc.isLeaf] at ha <;>
+  rcases hb with rfl | rfl <;> cases a <;> simp [Loc.isContig] at ha <;>
     (simp only [Gen.locationLessBody, Gen.asLocationSlice, locationLessLoop2_eq]
      cases List.all ls _ <;> simp)
 
@@ -145,7 +145,7 @@ theorem locationLessBody_eq (self_ : Loc → Loc → Bool) (a b : Loc)
     rcases hls with rfl | rfl
     · rw [Loc.less_joined_left]
     · rw [Loc.less_ordered_left]
-  have hla : Loc.isLeaf a = true := by
+  have hla : Loc.isContig a = true := by
     cases a <;>
       first
       | rfl
@@ -163,7 +163,7 @@ theorem locationLessBody_eq (self_ : Loc → Loc → Bool) (a b : Loc)
     rcases hls with rfl | rfl
     · rw [Loc.less_leaf_joined hla]
     · rw [Loc.less_leaf_ordered hla]
-  have hlb : Loc.isLeaf b = true := by
+  have hlb : Loc.isContig b = true := by
     cases b <;>
       first
       | rfl
